@@ -44,6 +44,8 @@ type Exp struct {
 	ES     bool              `json:"es"`
 	Count  int               `json:"count"`   // suggestionCount already stored
 	Extra  int               `json:"extra"`   // requests - count
+	// labels put on the experiment (or changed) AFTER its trials were created: a metadata-only update, always admitted
+	Relabel map[string]string `json:"relabel,omitempty"`
 }
 type Trial struct {
 	Owner  int               `json:"owner"`
@@ -69,7 +71,7 @@ func (c09) Name() string      { return "c09" }
 func (c09) CoqModule() string { return "C09" }
 func (c09) Rule() string {
 	return "clusters of 2-4 experiments over 2 namespaces and 2 names (equal names in different namespaces, equal labels across experiments, " +
-		"experiments with extra labels), 0-6 trials each built like getTrialInstance does (util.TrialLabels(owner) plus algorithm labels on other keys), " +
+		"experiments with extra labels), 0-6 trials each built like getTrialInstance does (util.TrialLabels(owner) plus algorithm labels, one in eight on a key the experiment itself uses), some experiments relabelled after their trials were created, " +
 		"in states running / succeeded / failed / metrics-unavailable / early-stopped with or without observation; some experiments carry another experiment's name under the experiment-name label key; the REAL suggestion reconciler runs for one " +
 		"experiment's suggestion with requests > suggestionCount; the requests seen by the fake algorithm and early-stopping services are the observation. " +
 		"Non-trivial: another experiment shares the target's name or a label and has trials, and the target has a skipped trial. Distinct: by the cluster."
@@ -110,6 +112,9 @@ func (c09) Gen(r *rand.Rand, i, n int) any {
 			e.Labels["team"] = "a"
 			e.Labels["tier"] = "x"
 		}
+		if r.Intn(8) == 0 {
+			e.Relabel = map[string]string{kit.Pick(r, []string{"team", "tier", "cost-center"}): "relabelled"}
+		}
 		in.Exps = append(in.Exps, e)
 	}
 	for ei := range in.Exps {
@@ -119,6 +124,15 @@ func (c09) Gen(r *rand.Rand, i, n int) any {
 			t := Trial{Owner: ei, Name: fmt.Sprintf("%s-%s-t%d", in.Exps[ei].NS, in.Exps[ei].Name, j), ALabel: map[string]string{}}
 			if r.Intn(3) == 0 {
 				t.ALabel["algo"] = kit.Pick(r, []string{"p", "q"})
+			}
+			if r.Intn(8) == 0 {
+				// the algorithm labels its proposal with a key the experiment itself happens to use
+				for k := range in.Exps[ei].Labels {
+					if k != consts.LabelExperimentName {
+						t.ALabel[k] = "from-algorithm"
+						break
+					}
+				}
 			}
 			switch r.Intn(6) {
 			case 0:
@@ -287,6 +301,32 @@ func (c09) Run(input any) kit.Case {
 			panic(err)
 		}
 	}
+	// metadata-only updates of the experiments after their trials exist; the model is given the experiments as they are now
+	cur := make([]Exp, len(in.Exps))
+	for i, e := range in.Exps {
+		cur[i] = e
+		cur[i].Labels = copyMap(e.Labels)
+		if len(e.Relabel) == 0 {
+			continue
+		}
+		x := &experimentsv1beta1.Experiment{}
+		if err := cl.Get(ctx, types.NamespacedName{Name: e.Name, Namespace: e.NS}, x); err != nil {
+			panic(err)
+		}
+		if x.Labels == nil {
+			x.Labels = map[string]string{}
+		}
+		if cur[i].Labels == nil {
+			cur[i].Labels = map[string]string{}
+		}
+		for k, v := range e.Relabel {
+			x.Labels[k] = v
+			cur[i].Labels[k] = v
+		}
+		if err := cl.Update(ctx, x); err != nil {
+			panic(err)
+		}
+	}
 	cap := &capture{}
 	suggestionclient.SetRPCClientFactoriesForVerif(func(*grpc.ClientConn) api_pb.SuggestionClient { return cap },
 		func(*grpc.ClientConn) api_pb.EarlyStoppingClient { return cap })
@@ -326,7 +366,7 @@ func (c09) Run(input any) kit.Case {
 		return kit.ListOf(ks, func(k string) string { return fmt.Sprintf("(%d, %d)", ids.ID(k), vals.ID(m[k])) }) + "%nat"
 	}
 	nsid := kit.NewIntern()
-	expsC := kit.ListOf(in.Exps, func(e Exp) string {
+	expsC := kit.ListOf(cur, func(e Exp) string {
 		return fmt.Sprintf("Build_sexp %d%%nat %d%%nat %s", nsid.ID(e.NS), vals.ID(e.Name), lab(e.Labels))
 	})
 	tnames := kit.NewIntern()
